@@ -91,6 +91,10 @@ structure Purged (w w' : World) (l : List Ent) : Prop where
   timers : w'.timers = w.timers
   connReqs : w'.connReqs = w.connReqs
   mem : ∀ y, y ∈ w'.ents ↔ y ∈ w.ents ∧ ¬ (y ∈ l ∧ (w.req y.rid).alarm = none)
+  nextDfd : w'.nextDfd = w.nextDfd
+  fmono : ∀ d ∈ w.fired, d ∈ w'.fired
+  /-- an entry that left its window has had its Deferred fired -/
+  gone : ∀ y ∈ w.ents, y ∈ w'.ents ∨ ∀ d, (w.req y.rid).dfd = some d → d ∈ w'.fired
 
 theorem purgeLoop_inv {x : Option Nat} (box : Box) (hbq : box ≠ .queue) (reason : Err) :
     ∀ (l : List Ent) {w : World}, WInvX x w → (∀ e ∈ l, e ∈ w.ents ∧ e.box = box) → l.Nodup →
@@ -101,7 +105,7 @@ theorem purgeLoop_inv {x : Option Nat} (box : Box) (hbq : box ≠ .queue) (reaso
     r.2 = none ∧ WInvX x r.1 ∧ Purged w r.1 l := by
   intro l
   induction l with
-  | nil => intro w h _ _; exact ⟨rfl, h, rfl, rfl, rfl, rfl, fun y => by show y ∈ w.ents ↔ _; simp⟩
+  | nil => intro w h _ _; exact ⟨rfl, h, rfl, rfl, rfl, rfl, fun y => by show y ∈ w.ents ↔ _; simp, rfl, fun _ hd => hd, fun y hy => Or.inl hy⟩
   | cons e l ih =>
     intro w h hl hnd
     obtain ⟨he, heb⟩ := hl e (by simp)
@@ -132,27 +136,38 @@ theorem purgeLoop_inv {x : Option Nat} (box : Box) (hbq : box ≠ .queue) (reaso
       obtain ⟨r1, r2, r3⟩ := ih hS hl' hnd'.2
       refine ⟨r1, r2, ?_⟩
       have hreq : ∀ r0, (fireD (w.setEnts fun es => Ents.remove es e.addr e.box e.key) d (.fired d (.fail reason))).req r0 = w.req r0 := fun _ => rfl
-      refine ⟨r3.reqs, r3.protos, r3.timers, r3.connReqs, fun y => ?_⟩
-      rw [r3.mem y]
-      simp only [hreq]
-      have := hmem y
-      simp only [fireD, setEnts_ents] at this ⊢
-      rw [this]
-      constructor
-      · rintro ⟨⟨a, b⟩, c⟩
-        refine ⟨a, fun hc => ?_⟩
-        simp only [List.mem_cons] at hc
-        rcases hc.1 with rfl | hc1
-        · exact b rfl
-        · exact c ⟨hc1, hc.2⟩
-      · rintro ⟨a, b⟩
-        refine ⟨⟨a, fun hc => b ⟨by simp [hc], by rw [hc]; exact hal⟩⟩, fun hc => b ⟨by simp [hc.1], hc.2⟩⟩
+      have hfd1 : ∀ d' ∈ w.fired, d' ∈ (fireD (w.setEnts fun es => Ents.remove es e.addr e.box e.key) d (.fired d (.fail reason))).fired := by
+        intro d' hd'; simp only [fireD, List.mem_cons]; exact Or.inr hd'
+      refine ⟨r3.reqs, r3.protos, r3.timers, r3.connReqs, fun y => ?_, r3.nextDfd, fun d' hd' => r3.fmono d' (hfd1 d' hd'), fun y hy => ?_⟩
+      · rw [r3.mem y]
+        simp only [hreq]
+        have := hmem y
+        simp only [fireD, setEnts_ents] at this ⊢
+        rw [this]
+        constructor
+        · rintro ⟨⟨a, b⟩, c⟩
+          refine ⟨a, fun hc => ?_⟩
+          simp only [List.mem_cons] at hc
+          rcases hc.1 with rfl | hc1
+          · exact b rfl
+          · exact c ⟨hc1, hc.2⟩
+        · rintro ⟨a, b⟩
+          refine ⟨⟨a, fun hc => b ⟨by simp [hc], by rw [hc]; exact hal⟩⟩, fun hc => b ⟨by simp [hc.1], hc.2⟩⟩
+      · by_cases hye : y = e
+        · subst hye
+          right; intro d' hd'
+          rw [hd] at hd'; injection hd' with hd'; subst hd'
+          exact r3.fmono _ (by simp [fireD])
+        · have hy1 : y ∈ (fireD (w.setEnts fun es => Ents.remove es e.addr e.box e.key) d (.fired d (.fail reason))).ents := (hmem y).mpr ⟨hy, hye⟩
+          rcases r3.gone y hy1 with h1 | h1
+          · exact Or.inl h1
+          · exact Or.inr (fun d' hd' => h1 d' (by rw [hreq]; exact hd'))
     · have s1 : (Step.read fun w => if (w.req e.rid).alarm = none then
             setEnts (fun es => Ents.remove es e.addr box e.key) ;; fireReqDfd (w.req e.rid).dfd (.fail reason) else Step.ok) w
           = (w, none) := by simp only [read_apply, hal, ↓reduceIte]; rfl
       rw [seq_ok s1]
       obtain ⟨r1, r2, r3⟩ := ih h (fun e' he' => hl e' (by simp [he'])) hnd'.2
-      refine ⟨r1, r2, r3.reqs, r3.protos, r3.timers, r3.connReqs, fun y => ?_⟩
+      refine ⟨r1, r2, r3.reqs, r3.protos, r3.timers, r3.connReqs, fun y => ?_, r3.nextDfd, r3.fmono, r3.gone⟩
       rw [r3.mem y]
       constructor
       · rintro ⟨a, b⟩
@@ -185,7 +200,9 @@ theorem purgeSession_inv {x : Option Nat} {w : World} (h : WInvX x w) (p : Nat) 
     (purgeSession p reason w).1.timers = w.timers ∧ (purgeSession p reason w).1.connReqs = w.connReqs ∧
     (∀ y ∈ (purgeSession p reason w).1.ents, y ∈ w.ents) ∧
     (∀ y ∈ w.ents, y.box = .queue ∨ y.box = .sub ∨ y.box = .unsub ∨ y.addr ≠ w.paddr p → y ∈ (purgeSession p reason w).1.ents) ∧
-    ArmedIn (fun b => b = .pub ∨ b = .rel) (purgeSession p reason w).1 (w.paddr p) := by
+    ArmedIn (fun b => b = .pub ∨ b = .rel) (purgeSession p reason w).1 (w.paddr p) ∧
+    (purgeSession p reason w).1.nextDfd = w.nextDfd ∧ (∀ d ∈ w.fired, d ∈ (purgeSession p reason w).1.fired) ∧
+    (∀ y ∈ w.ents, y ∈ (purgeSession p reason w).1.ents ∨ ∀ d, (w.req y.rid).dfd = some d → d ∈ (purgeSession p reason w).1.fired) := by
   obtain ⟨a1, a2, a3⟩ := purgeWindow_inv h p false reason
   have s1 : purgeWindow p false reason w = ((purgeWindow p false reason w).1, none) := Prod.ext rfl a1
   obtain ⟨w1, hw1⟩ : ∃ w1, w1 = (purgeWindow p false reason w).1 := ⟨_, rfl⟩
@@ -196,7 +213,14 @@ theorem purgeSession_inv {x : Option Nat} {w : World} (h : WInvX x w) (p : Nat) 
   have hreq2 : ∀ r, (purgeWindow p true reason w1).1.req r = w.req r := fun r => by rw [req_of_reqs b3.reqs, hreq]
   simp only [purgeSession]
   rw [seq_ok s1]
-  refine ⟨b1, b2, by rw [b3.reqs, a3.reqs], by rw [b3.protos, a3.protos], by rw [b3.timers, a3.timers], by rw [b3.connReqs, a3.connReqs], ?_, ?_, ?_⟩
+  refine ⟨b1, b2, by rw [b3.reqs, a3.reqs], by rw [b3.protos, a3.protos], by rw [b3.timers, a3.timers], by rw [b3.connReqs, a3.connReqs], ?_, ?_, ?_,
+    by rw [b3.nextDfd, a3.nextDfd], fun d hd => b3.fmono d (a3.fmono d hd), fun y hy => ?_⟩
+  rotate_left 3
+  · rcases a3.gone y hy with h1 | h1
+    · rcases b3.gone y h1 with h2 | h2
+      · exact Or.inl h2
+      · exact Or.inr (fun d hd => h2 d (by rw [hreq]; exact hd))
+    · exact Or.inr (fun d hd => b3.fmono d (h1 d hd))
   · intro y hy; exact ((a3.mem y).mp ((b3.mem y).mp hy).1).1
   · intro y hy hb
     refine (b3.mem y).mpr ⟨(a3.mem y).mpr ⟨hy, fun hc => ?_⟩, fun hc => ?_⟩
